@@ -1,34 +1,90 @@
+import re
 from vlib.runner import Ob
+
+
+# ---- scratch copies regenerated from the CURRENT /repo source on every run (runner: patch={rel: callable}) ----
+def _cc_h_small(txt):
+    """src/cc.h without the two display pages per caption channel (157 KB of struct caption the XDS code never names)"""
+    new, n = re.subn(r"\n[ \t]*vbi_page[ \t]+pg\[2\];", "\n\t/* vbi_page pg[2]: carved out for the C09 XDS obligations */", txt)
+    if n != 1:
+        raise RuntimeError("C09: member 'vbi_page pg[2]' of cc_channel not found in src/cc.h")
+    return new
+
+
+def _caption_xds_part(txt):
+    """src/caption.c up to (not including) itv_separator(): file head, caption_send_event and the whole XDS part, verbatim"""
+    k = txt.find("\nstatic void\nitv_separator")
+    if k < 0:
+        raise RuntimeError("C09: itv_separator() not found in src/caption.c")
+    head = txt[:k] + "\n"
+    for fn in ("xds_strfu", "flush_prog_info", "xds_decoder", "xds_separator", "caption_send_event"):
+        if not re.search(r"^%s\s*\(" % fn, head, re.M):
+            raise RuntimeError("C09: %s() not found before itv_separator() in src/caption.c" % fn)
+    return head
+
+
+def _caption_full_decoder_stubbed(txt):
+    """the complete src/caption.c, only the definition of xds_decoder() replaced by a prototype"""
+    new, n = re.subn(r"\nstatic inline void\nxds_decoder\(.*?\n\}\n",
+                     "\nstatic void xds_decoder(vbi_decoder *vbi, int _class, int type, uint8_t *buffer, int length);\n", txt, count=1, flags=re.S)
+    if n != 1:
+        raise RuntimeError("C09: definition of xds_decoder() not found in src/caption.c")
+    return new
+
+
+def _dec_grid(classes, types, lens):
+    return [dict(XCLS=c, XTYP="0x%02X" % t, XLEN=l) for c in classes for t in types for l in lens]
 
 
 def obligations(tier, seed):
     U = ["src/hamm.c"]
     common = dict(harness="h_c09.c", units=U, stubs=["_vbi_log_printf unused (log macro off)"])
     vin_step = 6816
-    sender_grid_q = [dict(CLS1=0, TYP1=1, CLS2=0, TYP2=2, N1=3, N2=2, KSLOTS=9),
-                     dict(CLS1=0, TYP1=3, CLS2=3, TYP2=0x40, N1=4, N2=1, KSLOTS=9)]
-    sender_grid_t = sender_grid_q + [
-        dict(CLS1=1, TYP1=0x17, CLS2=2, TYP2=1, N1=2, N2=4, KSLOTS=10),
-        dict(CLS1=3, TYP1=1, CLS2=3, TYP2=4, N1=5, N2=2, KSLOTS=11),
-        dict(CLS1=2, TYP1=2, CLS2=0, TYP2=5, N1=6, N2=1, KSLOTS=12),
-        dict(CLS1=0, TYP1=0x10, CLS2=0, TYP2=0x11, N1=1, N2=1, KSLOTS=12),
-    ]
-    over_grid_q = [dict(CLS1=0, TYP1=3, KSLOTS=k) for k in (16, 17)]
-    over_grid_t = [dict(CLS1=c, TYP1=t, KSLOTS=k) for (c, t) in ((0, 3), (3, 0x17), (2, 0)) for k in (15, 16, 17, 18, 20)]
+    SMALL_STUBS = ["struct teletext carved out of vbi_decoder (include guard TELETEXT_H + dummy)",
+                   "src/cc.h: scratch copy of the current file with cc_channel.pg[2] (display pages, 157 KB of struct caption, never named by the XDS code) removed",
+                   "src/caption.c: scratch copy of the current file cut before itv_separator() (head + caption_send_event + XDS part verbatim; display/ITV code left out)",
+                   "pthread mutex: flag + lock-discipline assertions"]
+    small = dict(harness="h_c09b.c", units=U, solver="cadical", flags=["--max-field-sensitivity-array-size", "24"])
+    # ---- xds_decoder grids: class x type x length, all concrete; payload and decoder state symbolic ----
+    str_types01 = [3, 4] + list(range(0x10, 0x18))
+    str_lens = [1, 2, 3, 15, 16, 17, 31, 32]
+    dec_q = (_dec_grid([0], [1], [4]) + _dec_grid([0], [2], [2, 6]) + _dec_grid([0], [3], [2, 32]) + _dec_grid([0], [4], [32]) + _dec_grid([0], [5, 6], [2])
+             + _dec_grid([0], [7], [8]) + _dec_grid([0], [8], [1]) + _dec_grid([0], [9], [3]) + _dec_grid([0], [0x10, 0x17], [32]) + _dec_grid([1], [3], [31]) + _dec_grid([1], [9], [2])
+             + _dec_grid([2], [1], [2, 32]) + _dec_grid([2], [2], [32]) + _dec_grid([2], [3], [2]) + _dec_grid([3], [1], [6]))
+    dec_t = list(dec_q)
+    for c in (0, 1):
+        dec_t += _dec_grid([c], str_types01, str_lens)
+        dec_t += _dec_grid([c], [t for t in range(0x18) if t not in str_types01], [1, 2, 3, 4, 5, 6, 8, 9, 32])
+    dec_t += _dec_grid([2], [1, 2], str_lens) + _dec_grid([2], [t for t in range(0x18) if t not in (1, 2)], [1, 2, 3, 32])
+    dec_t += _dec_grid([3], range(0x18), [1, 2, 6, 32])
+    seen = set(); dec_t = [g for g in dec_t if not (tuple(sorted(g.items())) in seen or seen.add(tuple(sorted(g.items()))))]
+    # ---- xds_demux_step grids (measured solo wall, cadical): see the harness comment for the three encodings ----
+    def cur(v, split=False):
+        return [dict(C1FIX=v, CURC=k) for k in range(4)] if split else [dict(C1FIX=v)]
+    hdr_codes = ["0x%02X" % v for v in range(1, 9)]
+    step_q = (cur("-0x41") + cur("0x0B") + cur("0x14") + cur("0x0F", True) + cur("0x41", True)
+              + [dict(C1FIX=v, C2K=1) for v in hdr_codes] + [dict(C1FIX=v, C2K=2, CURC=k) for v in ("0x01", "0x08") for k in range(4)])
+    step_t = (step_q + cur("-0x01") + cur("0x00") + cur("0x09") + cur("0x0E") + cur("0x10") + cur("0x1F") + cur("0x20", True) + cur("0x7F", True)
+              + [dict(C1FIX=v, C2K=2, CURC=k) for v in hdr_codes if v not in ("0x01", "0x08") for k in range(4)] + [dict(C1FIX=v, C2K=3) for v in hdr_codes])
+    sep_q = (cur("-0x41") + cur("0x09") + cur("0x0F", True) + cur("0x41", True) + [dict(C1FIX=v, C2K=1) for v in ("0x01", "0x02", "0x07", "0x08")] + [dict(C1FIX="0x01", C2K=2, CURC=k) for k in (0, 3)])
+    sep_t = (sep_q + cur("-0x01") + cur("0x0D") + cur("0x0E") + cur("0x20", True) + cur("0x7F", True)
+             + [dict(C1FIX=v, C2K=1) for v in ("0x03", "0x04", "0x05", "0x06")] + [dict(C1FIX="0x01", C2K=2, CURC=k) for k in (1, 2)] + [dict(C1FIX=v, C2K=2, CURC=k) for v in hdr_codes if v != "0x01" for k in range(4)])
     return [
         Ob("xds_demux_step", func="h_xds_step", unwind=40, solver="cadical", flags=["--max-field-sensitivity-array-size", "24"],
            desc="INV-STEP + step contract: from every demux state satisfying the invariant (slot counts in {0} u [2,34]; curr_sp NULL or the started slot named by "
-                "curr.xds_class/subclass, class <= MISC) one byte pair (first byte = grid value incl. a parity error, second byte arbitrary) yields exactly the "
-                "EIA-608 reassembly step: parity error/unknown header/caption code end the current packet, start resets the named slot, continue resumes a started one, "
-                "content appends (discarded beyond 32 bytes), terminator delivers iff checksum good and >= 1 byte, with class/type of the packet, length, bytes, "
-                "NUL terminated; no other slot is ever touched; invariant preserved; all array/pointer checks on the exact-size demux object",
+                "curr.xds_class/subclass, class <= MISC) one byte pair (first byte = grid value incl. a parity error) yields exactly the "
+                "EIA-608 reassembly step: parity error/unknown header/caption code end the current packet, start resets the named slot, continue resumes a started one "
+                "under its own class/type, content appends (discarded beyond 32 bytes), terminator delivers iff checksum good and >= 1 byte, with class/type of the packet, "
+                "length, bytes, NUL terminated; no other slot of the 168 is ever touched; invariant preserved; all array/pointer checks on the exact-size demux object",
            encodes=["vbi_xds_demux_feed", "vbi_unpar8"],
-           bounds="one step; state fully symbolic (6792-byte image); first byte case-split on the grid (every dispatch class of the switch, both parities of header codes, "
-                  "invalid classes), second byte symbolic; histories of any length by induction over the stated invariant (initial: xds_demux_init)",
-           assumes=["representation invariant (shown initial by xds_demux_init, inductive by this obligation), assumed only for the three slots the step can depend on"],
-           grid=[dict(C1FIX=v) for v in ("-0x41", "0x00", "0x01", "0x02", "0x05", "0x07", "0x08", "0x09", "0x0E", "0x0F", "0x14", "0x20", "0x41", "0x7F")],
-           quick_grid=[dict(C1FIX=v) for v in ("-0x41", "0x01", "0x04", "0x07", "0x08", "0x0B", "0x0F", "0x14", "0x41")],
-           reach=["end", "frame"], timeout=2400, mem_gb=4, vin_size=vin_step, **common),
+           bounds="one step; state fully symbolic (6792-byte image); first byte case-split on the grid (C1FIX: every dispatch class of the switch, both parities of header codes, "
+                  "invalid classes); second byte symbolic, except for headers of a stored class: C2K=1 all 32 accepted types (one call site each), C2K=2 rejected types at the "
+                  "boundary values 0x18 0x3F 0x48 0x7F and one parity error, C2K=3 (thorough) every rejected second byte; CURC = class of the current packet where the "
+                  "instance is split by it (the case 'no current packet' is in every instance); histories of any length by induction over the stated invariant "
+                  "(initial: xds_demux_init)",
+           assumes=["representation invariant (shown initial by xds_demux_init, inductive by this obligation), assumed only for the slot(s) the step can depend on"],
+           grid=step_t, quick_grid=step_q,
+           reach=["end", "cur", "key"], timeout=900, mem_gb=4, vin_size=vin_step, **common),
         Ob("xds_demux_init", func="h_xds_init", unwind=40, nafs=True, vin_size=vin_step,
            desc="INIT |= invariant: _vbi_xds_demux_init on dirty memory establishes the invariant used by xds_demux_step",
            encodes=["_vbi_xds_demux_init", "vbi_xds_demux_reset"], bounds="none", timeout=120, **common),
@@ -36,22 +92,38 @@ def obligations(tier, seed):
         # data under a symbolic schedule) are NOT registered: measured 1375 s symex, 1.2 M steps, 17.6 GB at 9 byte pairs with
         # --max-field-sensitivity-array-size 24, out of memory at 11 GB with --no-array-field-sensitivity.  Sequences are covered by induction
         # over the step contract instead (DESIGN 0.3 C09).
-        Ob("caption_xds_separator_step", harness="h_c09b.c", func="h_xdssep_step", units=["src/hamm.c"], unwind=40, solver="cadical",
-           flags=["--max-field-sensitivity-array-size", "24"], tier="thorough",
-           desc="INV-STEP on the service decoder's own xds_separator (caption.c): arbitrary sub-packet table satisfying the invariant, one byte pair (first byte on the "
-                "grid, second arbitrary): same reassembly contract as the stand-alone demultiplexer (append, discard beyond 32 bytes, parity error/unknown header end the "
-                "packet, no other slot touched), xds_decoder's assert(length <= 32) and all bounds inside struct caption",
-           encodes=["xds_separator", "xds_decoder"], bounds="one step; first byte case-split; event_mask = 0 (decoder body short)",
-           stubs=["struct teletext carved out of vbi_decoder (include guard TELETEXT_H + dummy)", "pthread mutex: flag + lock-discipline assertions", "vbi_send_event: log",
-                  "vbi_caption_unicode: identity", "vbi_reset_prog_info: local copy"],
-           assumes=["invariant: counts in {0} u [2,34], curr_sp NULL or a started slot", "first byte as vbi_decode_caption hands it over (parity error, 0x01..0x0F, >= 0x20)"],
-           grid=[dict(C1FIX=v) for v in ("-0x41", "0x01", "0x02", "0x07", "0x09", "0x0F", "0x41")], reach=["end", "frame"], timeout=2400, mem_gb=6, vin_size=4096),
-        Ob("caption_xds_decoder", harness="h_c09b.c", func="h_xdsdec", units=["src/hamm.c"], unwind=70, solver="cadical",
-           flags=["--max-field-sensitivity-array-size", "24"],
-           desc="xds_decoder for every packet type 0..0x17 of a class with an arbitrary payload of the grid length: every write inside vbi_program_info / vbi_network; "
-                "programme name copied exactly (leading blanks skipped, control codes as blanks, NUL terminated)",
-           encodes=["xds_decoder", "xds_strfu", "flush_prog_info"], bounds="class and length on the grid (class 0..3; lengths 1, 2, 4, 6, 32 quick; 1..32 thorough)",
-           stubs=["struct teletext carved out", "vbi_send_event: log + asserts the caption mutex is released", "vbi_reset_prog_info: local copy"],
-           grid=[dict(XCLS=c, XLEN=l) for c in range(4) for l in range(1, 33)], quick_grid=[dict(XCLS=c, XLEN=l) for c in (0, 2) for l in (1, 2, 4, 6, 32)],
-           reach=["end"], timeout=1200, mem_gb=6, vin_size=128),
+        Ob("caption_xds_separator_step", harness="h_c09b.c", func="h_xdssep_step", units=U, unwind=40, unwindset={"sep_hdr_sites.0": 130}, solver="cadical",
+           flags=["--max-field-sensitivity-array-size", "24"], defines={"C09_DECODER_STUB": 1}, patch={"src/caption.c": _caption_full_decoder_stubbed},
+           desc="INV-STEP on the service decoder's own xds_separator (complete caption.c, real struct caption inside vbi_decoder): arbitrary sub-packet table satisfying the "
+                "invariant, one byte pair (first byte on the grid): same reassembly contract as the stand-alone demultiplexer (append, discard beyond 32 bytes, parity error "
+                "ends and clears the packet, a header that is not stored deselects, an interrupted packet stays resumable, none of the other 95 slots touched) and the exact "
+                "hand-over to xds_decoder: called iff terminator with good checksum and >= 1 byte, with the slot's class/type, its length (1..32: the decoder's entry "
+                "assertion) and bytes, caption mutex held; no signed overflow of the int checksum",
+           encodes=["xds_separator"],
+           bounds="one step; first byte case-split (C1FIX); sub-packet table (3840 bytes) and current-packet selection symbolic; second byte symbolic, for headers of a stored "
+                  "class (0x01-0x08): C2K=1 every second byte with good parity (one call site each), C2K=2 two second bytes with a parity error (0x00, 0x41); CURC = class of "
+                  "the current packet where the instance is split by it",
+           stubs=["struct teletext carved out of vbi_decoder (include guard TELETEXT_H + dummy)", "pthread mutex: flag + lock-discipline assertions",
+                  "xds_decoder: body replaced (scratch copy of the current caption.c) by a logging stub carrying its entry contract assert(length > 0 && length <= 32); the real "
+                  "body is decided by caption_xds_decoder for every (class, type, length) handed over (assume-guarantee)"],
+           assumes=["invariant: counts in {0} u [2,34], 0 <= chksum <= 127*count (0 if empty), curr_sp NULL or a started slot; assumed only for the slot(s) the step depends on",
+                    "first byte as vbi_decode_caption hands it over (parity error, 0x01..0x0F, >= 0x20)"],
+           outside="field-2 routing in vbi_decode_caption (which pairs reach the separator); second bytes with a parity error other than the two listed",
+           grid=sep_t, quick_grid=sep_q,
+           reach=["end", "cur", "key"], timeout=600, mem_gb=4, vin_size=4096),
+        Ob("caption_xds_decoder", func="h_xdsdec", unwind=70, unwindset={"frame_head.0": 2000, "xds_decoder.4": 42}, defines={"C09_SMALL_CC": 1},
+           patch={"src/cc.h": _cc_h_small, "src/caption.c": _caption_xds_part},
+           desc="xds_decoder for one (class, type, length) per instance, payload, programme information of both classes, network record and info_cycle arbitrary: "
+                "every write inside the record of that class / the network record (frame over the decoder head and the caption channels written in the harness); "
+                "title, description lines, network name and call letters equal the payload (leading blanks skipped, control codes as blanks, NUL terminated), other "
+                "lines/strings kept; PIN, length/elapsed, CGMS-A, programme type ids, tape delay equal the EIA-608 fields, invalid PIN/length ignored; only ASPECT/PROG_INFO "
+                "(carrying the class's record) resp. NETWORK/NETWORK_ID events, sent with the caption mutex released and re-taken",
+           encodes=["xds_decoder", "xds_strfu", "flush_prog_info", "caption_send_event"],
+           bounds="class, type, length on the grid (quick: one instance per switch arm at its characteristic length; thorough: classes 0..3 x types 0..0x17, lengths "
+                  "1 2 3 15 16 17 31 32 for the string/list types, 1-6 8 9 32 for the others)",
+           stubs=SMALL_STUBS + ["vbi_send_event: log + asserts the caption mutex is released", "vbi_reset_prog_info: local copy of the vbi.c function", "vbi_chsw_reset: call counter"],
+           assumes=["network call letters NUL terminated within their 40 bytes (only ever written by xds_strfu with <= 32 bytes)", "prog_info[i].future == i (set at initialisation)",
+                    "language pointers NULL or one of the decoder's own strings", "all four XDS related events enabled in event_mask"],
+           outside="rating / audio / caption-services / aspect content (memory safety and frame only); the repeat rule (second identical occurrence) is not compared with a reference",
+           grid=dec_t, quick_grid=dec_q, reach=["end"], timeout=300, mem_gb=4, vin_size=1600, **small),
     ]
